@@ -1158,6 +1158,7 @@ def loop_fragment_cases(rnd, n):
     (theorem loops_unroll_to_their_instances says what unroll() must emit for every one of them); a share leaves the
     fragment on purpose (an index outside the register in some iteration, a repeated operand at one value)"""
     out = []
+    PEXPR = ["0.5", "2", "1.25", "3", "-0.5", "pi / 2", "-pi", "2 * pi / 3", "tau - 1", "1 + 2", "3.5 / 2"]
     g1 = ["h", "x", "y", "z", "s", "t", "sdg", "tdg", "sx", "id"]
     gp = ["rx", "ry", "rz"]
     g2 = ["cx", "cz", "swap"]
@@ -1177,7 +1178,7 @@ def loop_fragment_cases(rnd, n):
             if c < 0.3:
                 return "%s q[%s];" % (rnd.choice(g1), qidx(nq))
             if c < 0.5:
-                return "%s(%s) q[%s];" % (rnd.choice(gp), rnd.choice(["0.5", "2", "1.25", "3"]), qidx(nq))
+                return "%s(%s) q[%s];" % (rnd.choice(gp), rnd.choice(PEXPR if var is None else ["0.5", "2", "1.25", "3"]), qidx(nq))
             if c < 0.7:
                 a = qidx(nq)
                 b = qidx(nq, avoid=(a,) if a != var else (var,) + tuple(range(lo, hi + 1)))
@@ -1201,9 +1202,9 @@ def loop_fragment_cases(rnd, n):
             for _j in range(rnd.randint(1, 4)):
                 c = rnd.random()
                 if c < 0.4:
-                    body.append("%s %s;" % (rnd.choice(g1), rnd.choice(formals)))
+                    body.append("%s%s %s;" % (rnd.choice(["", "", "", "inv @ ", "pow(2) @ "]), rnd.choice([g for g in g1 if g != "sx"]), rnd.choice(formals)))
                 elif c < 0.7 or k == 1:
-                    body.append("%s(%s) %s;" % (rnd.choice(gp), rnd.choice(params + ["0.25", "2"]), rnd.choice(formals)))
+                    body.append("%s(%s) %s;" % (rnd.choice(gp), rnd.choice(params + [x + " * 2" for x in params] + ["-" + x for x in params] + ["0.25", "2", "pi / 4"]), rnd.choice(formals)))
                 else:
                     x, y = rnd.sample(formals, 2)
                     body.append("%s %s, %s;" % (rnd.choice(g2), x, y))
@@ -1214,7 +1215,7 @@ def loop_fragment_cases(rnd, n):
             if defs and rnd.random() < 0.35:
                 nm, npar, k = rnd.choice(defs)
                 qs = rnd.sample(range(nq), k) if not (bad and rnd.random() < 0.3) else [rnd.randrange(nq)] * k
-                L.append("%s%s %s;" % (nm, "(%s)" % ", ".join(rnd.choice(["0.5", "3", "1.5"]) for _ in range(npar)) if npar else "",
+                L.append("%s%s %s;" % (nm, "(%s)" % ", ".join(rnd.choice(PEXPR) for _ in range(npar)) if npar else "",
                                        ", ".join("q[%d]" % x for x in qs)))
             elif rnd.random() < 0.55:
                 lo = rnd.randint(0, 2)
@@ -1249,7 +1250,7 @@ def loop_fragment_cases(rnd, n):
                 if c < 0.5:
                     L.append("%s @ %s q[%d];" % (mods, rnd.choice([g for g in g1 if g != "sx"]), rnd.randrange(nq)))
                 elif c < 0.75:
-                    L.append("%s @ %s(%s) q[%d];" % (mods, rnd.choice(gp), rnd.choice(["0.5", "2", "1.25"]), rnd.randrange(nq)))
+                    L.append("%s @ %s(%s) q[%d];" % (mods, rnd.choice(gp), rnd.choice(PEXPR), rnd.randrange(nq)))
                 else:
                     x, y = rnd.sample(range(nq), 2)
                     L.append("%s @ %s q[%d], q[%d];" % (mods, rnd.choice(g2), x, y))
